@@ -131,6 +131,75 @@ def run(facts, rep, ctx):
     search_contract(facts, rep, R3, facts.body(list(search_fns)[0]))
 
 
+def farthest_candidate(rep, R3, sb, outer, P, where):
+    """The displacement reported for candidate i, as an affine function of i and the window length, over the range the
+    candidate loop runs: its largest value must be the window length itself (the far edge of the window is a legal
+    match start and has to be tried)."""
+    lo, hi, ocall = outer
+    item = None
+    for x in walk(("x", ocall)):
+        pass
+    la, ha = affine(lo, None), affine(hi, None)
+    if la is None or ha is None:
+        return
+    W = norm(P(5))
+    # the returned displacement: second component of the result tuple
+    disp_l = None
+    for bi, si, st in sb.stmts():
+        if st["k"] == "assign" and st["lhs"]["l"] == 0 and not st["lhs"]["p"] and st["rv"]["k"] == "agg" and len(st["rv"]["fields"]) == 2:
+            pl = st["rv"]["fields"][1].get("m") or st["rv"]["fields"][1].get("c")
+            if pl is not None and not pl["p"]:
+                disp_l = pl["l"]
+    if disp_l is None:
+        return
+    for _ in range(3):
+        ds = sb.defs().get(disp_l, [])
+        if len(ds) == 1 and ds[0][2] == "assign" and ds[0][3]["rv"]["k"] in ("use", "cast"):
+            pl = ds[0][3]["rv"]["a"].get("m") or ds[0][3]["rv"]["a"].get("c")
+            if pl is not None and not pl["p"]:
+                disp_l = pl["l"]
+                continue
+        break
+    loops = sb.loops()
+    forms = []
+    for (bi, si, kind, payload) in sb.defs().get(disp_l, []):
+        if kind != "assign" or not any(bi in bl for bl in loops.values()):
+            continue
+        a = affine(sb.term_of_rvalue(payload["rv"]), None)
+        if a is None:
+            return
+        forms.append(a)
+    if not forms:
+        return
+    for a in forms:
+        ci = cw = 0
+        other = False
+        for k, v in a[0].items():
+            if k == W:
+                cw = v
+            elif any(x[0] == "call" and x[1].endswith("::next") for x in walk(k)):
+                ci += v
+            else:
+                other = True
+        if other or ci not in (1, -1):
+            rep.inconc(R3, "search: the reported displacement is %s, not an affine function of the candidate index and the window length" % fmt_affine(a)[:80])
+            return
+        # extreme value of  ci*i + cw*W + c0  over  i in [lo, hi)
+        if ci == -1:
+            # largest at i = lo
+            ext = ({k: cw * (1 if k == W else 0) - la[0].get(k, 0) for k in set(la[0]) | {W}}, a[1] - la[1])
+        else:
+            # largest at i = hi - 1
+            ext = ({k: cw * (1 if k == W else 0) + ha[0].get(k, 0) for k in set(ha[0]) | {W}}, a[1] + ha[1] - 1)
+        ext = ({k: v for k, v in ext[0].items() if v}, ext[1])
+        if ext == ({W: 1}, 0):
+            rep.ok(R3, {"farthest_candidate": "displacement = window length is tried"})
+        elif set(ext[0]) <= {W}:
+            rep.violation(R3, sb.name, "window-edge", "the largest displacement the search can report is %s, not the window length: a repetition whose only earlier copy starts at the far edge of the window is never found" % fmt_affine(ext), where)
+        else:
+            rep.inconc(R3, "search: largest reported displacement is %s" % fmt_affine(ext)[:80])
+
+
 def search_contract(facts, rep, R3, sb):
     where = "%s:%s" % (sb.file, sb.line)
     try:
@@ -151,6 +220,8 @@ def search_contract(facts, rep, R3, sb):
                         outer = (lo, hi, term[1])
                     elif hi == P(3):
                         inner = (lo, hi, term[1])
+    if outer is not None:
+        farthest_candidate(rep, R3, sb, outer, P, where)
     if outer is None or inner is None:
         rep.inconc(R3, "search loops not recognised")
         return
